@@ -438,6 +438,46 @@ fn unit_c16(w: &mut W, call: Call, data: &[u8]) {
                 }
             }
             let _ = cap;
+            // the same on a REUSED value: after an identical first call (Partial, fields set,
+            // array restored), the entry points must still agree on status and on every field
+            let is_req = kind == Kind::Req;
+            let first: &[u8] = if is_req { b"POST /submit HTTP/1.0\r\nFirst:" } else { b"HTTP/1.0 404 Not Found\r\nFirst:" };
+            let fb = w.ctx.place_in(2, first, Place::End);
+            let pb = w.ctx.place_in(1, data, Place::End);
+            let all: Vec<Entry> = kind.entries().to_vec();
+            let mut base: Option<(Entry, Res, St)> = None;
+            for &e in &all {
+                let ecfg = if e.takes_cfg() { cfg } else { 0 };
+                if !e.takes_cfg() && cfg != 0 {
+                    continue;
+                }
+                let steps = [
+                    crate::history::Step { entry: if is_req { Entry::R1 } else { Entry::S1 }, cfg: 0, buf: fb, ucap: call.cap },
+                    crate::history::Step { entry: e, cfg: ecfg, buf: pb, ucap: call.cap },
+                ];
+                let h = crate::history::run(&mut w.ctx, is_req, call.cap.max(1), &steps, call.backend);
+                w.st.evaluations += 2;
+                w.st.count("reused_value_agreement_runs", 1);
+                if h.len() < 2 || h.iter().any(|x| x.panicked) {
+                    continue;
+                }
+                // capacity of the init path is max(cap,1) (first call needs no slot); compare only when equal
+                if call.cap == 0 {
+                    continue;
+                }
+                let r = h[1].res.canon();
+                match &base {
+                    None => base = Some((e, r, h[0].res.st)),
+                    Some((e0, r0, _)) => {
+                        let same = r0.st == r.st && r0.method == r.method && r0.path == r.path && r0.version == r.version && r0.code == r.code && r0.reason == r.reason && (!r.st.is_complete() || r0.headers == r.headers);
+                        if !same {
+                            let dd = format!("on a reused value (first call {}): {} gives {} but {} gives {}", crate::report::esc(first), e0.name(), r0.show(pb), e.name(), r.show(pb));
+                            w.viol("entry_points_disagree_on_reused_value", dd, Call { entry: e, cfg: ecfg, ..call }, Place::End, data);
+                            return;
+                        }
+                    }
+                }
+            }
         }
         Kind::Hdr => {
             // parse_headers(h) vs the header part of startline ++ h
